@@ -276,7 +276,9 @@ def check(spec, ctx):
             elif kind == "remove":
                 mol = op["mol"]
                 nodes = [n for n in range(sizes[mol]) if op["whole"] or (op["mask"] >> n) & 1]
-                engine.remove_positions(mol, nodes)
+                # the node list may be any iterable: a list, a tuple, or one that can be walked only once
+                form = (step + len(nodes)) % 3
+                engine.remove_positions(mol, nodes if form == 0 else (tuple(nodes) if form == 1 else iter(nodes)))
                 for n in nodes:
                     if (mol, n) in model:
                         had_removal = True
